@@ -136,16 +136,36 @@ def inFragAny (O : Oracles) : List FieldDecl → PyVal → Bool
 termination_by structural fs _ => fs
 
 /-- the attribute list of an instance as the constructor builds it: declared fields only, in
-    constructor order, each set value not None, conforming and in the fragment; each unset field
-    may stay unset -/
+    constructor order, each set value not None, conforming and in the fragment (or an ImmutableSet /
+    StructureReference attribute, `attrSpecial`); each unset field may stay unset -/
 def canonAttrs (O : Oracles) (c : ClassOpts) (defaults : List (String × PyVal)) :
     List (String × FieldDecl) → List (String × PyVal) → Bool
   | [], attrs => attrs.isEmpty
   | (n, _) :: rest, [] => absentOk c defaults n && canonAttrs O c defaults rest []
   | (n, f) :: rest, (m, v) :: as =>
-    if m == n then !v.isNone && conforms O f v && inFrag O f v && canonAttrs O c defaults rest as
+    if m == n then !v.isNone && ((conforms O f v && inFrag O f v) || attrSpecial O f v) && canonAttrs O c defaults rest as
     else absentOk c defaults n && canonAttrs O c defaults rest ((m, v) :: as)
 termination_by structural fs _ => fs
+
+/-- field kinds whose STORED form is not what the deserializer hands to the constructor, as the value of a
+    class attribute: an ImmutableSet stores a frozenset (the deserializer builds a set, the constructor
+    freezes it) and a StructureReference stores an instance of its inline class (the deserializer hands on the
+    validated keyword arguments as a dict, the constructor builds the instance) -/
+def attrSpecial (O : Oracles) : FieldDecl → PyVal → Bool
+  | .setOf imm f sz, v =>
+    imm && (match v with
+      | .set fr xs => fr && sizeOk sz xs.length && PyVal.pyNodup xs && !(xs.any unhashable)
+          && xs.all (fun x => conforms O f x && inFrag O f x)
+      | _ => false)
+  | .struct c fields defaults, v =>
+    c.inline && decide ((fields.map (·.1)).Nodup)
+      && (match v with
+          | .inst n attrs =>
+            n == c.name && c.required.all (fun r => (lookup r attrs).isSome)
+              && canonAttrs O c defaults fields attrs
+          | _ => false)
+  | _, _ => false
+termination_by structural f _ => f
 
 def inFragZip (O : Oracles) : List FieldDecl → List PyVal → Bool
   | [], _ => true
